@@ -336,6 +336,21 @@ fn bilinear<E: Eng>(ctx: &mut Ctx, st: &Setup<E>, alpha: &[usize]) {
                 format!("{}: e(G,H).mul_bigint(ab) != e(G,H).pow(ab); got {} want {}", input(), short(&v.0), short(&want))
             });
         }
+        // unreduced integer exponents: e(aP,bQ) = e(P,Q)^(ab) for the INTEGER ab, which has up to twice the
+        // limbs of the scalar field; also ab + r*2^64 and ab with leading zero limbs
+        let full = a * b;
+        let mut padded = ab.to_u64_digits();
+        padded.extend_from_slice(&[0, 0]);
+        let shifted = &ab + (&st.r << 64usize);
+        for (tag, digits) in [("a*b unreduced", full.to_u64_digits()), ("ab + r*2^64", shifted.to_u64_digits()), ("ab with leading zero limbs", padded)] {
+            loc.class_if(digits.len() > st.r_limbs.len(), "exponent_longer_than_scalar_field");
+            let via = guard(loc, "output_scalar_mul_long", input, || st.base.mul_bigint(&digits));
+            if let Some(v) = via {
+                chk(loc, "output_scalar_mul_long", v.0 == want, || {
+                    format!("{}: e(G,H).mul_bigint({tag} = {:x?}) != e(G,H).pow(ab mod r); got {} want {}", input(), digits, short(&v.0), short(&want))
+                });
+            }
+        }
         // probe only (PairingOutput::mul_bits_be is outside the property text): counted, never a verdict
         let bits: Vec<bool> = ark_ff::BitIteratorBE::new(k.into_bigint()).collect();
         if let Ok(v) = catch_unwind(AssertUnwindSafe(|| st.base.mul_bits_be(bits.into_iter()))) {
@@ -718,7 +733,7 @@ fn run_engine<E: Eng>(ctx: &mut Ctx, name: &'static str, class: &'static str, fa
 
 fn main() {
     let mut ctx = Ctx::from_args("C06");
-    ctx.require(&[
+    ctx.require(&["exponent_longer_than_scalar_field",
         "engine:bls12_381",
         "engine:test_curves_bls12_381",
         "engine:bls12_377",
